@@ -16,6 +16,11 @@ From Coq Require Import QArith Qabs.
 Import ListNotations.
 Open Scope list_scope.
 
+(* do object_for_path / replacing_for_path / InterpolatorPath.get_value follow a string key into a dict
+   (obj[key]) or only attributes (getattr)?  Read from the source on every run. *)
+Definition dictok : bool := dict_paths_followed.
+Global Opaque dictok.   (* tactics treat it as unknown: the proofs hold for both values *)
+
 (* a path entry: attribute name (getattr / setattr) or list index (obj[i]) *)
 Inductive key := KS (s : string) | KI (i : nat).
 Definition path := list key.
@@ -77,6 +82,7 @@ Section Generic.
   | TI (z : Z)
   | TX (tok : Z)
   | TO (fs : list (string * tree))
+  | TD (fs : list (string * tree))      (* a Python dict with string keys *)
   | TL (l : list tree)
   | TT (l : list tree).
 
@@ -98,7 +104,7 @@ Section Generic.
   Fixpoint fpaths (t : tree) : list path :=
     match t with
     | TF _ => [[]]
-    | TO fs => obj_paths fpaths fs
+    | TO fs | TD fs => obj_paths fpaths fs        (* the walk descends into dicts as into attribute dicts *)
     | TL l => list_paths fpaths 0 l
     | _ => []
     end.
@@ -106,6 +112,7 @@ Section Generic.
   Definition child (k : key) (t : tree) : option tree :=
     match k, t with
     | KS s, TO fs => assoc s fs
+    | KS s, TD fs => if dictok then assoc s fs else None      (* getattr(dict, key) raises *)
     | KI i, TL l => nth_error l i
     | _, _ => None
     end.
@@ -121,6 +128,7 @@ Section Generic.
   Definition put (k : key) (x : tree) (t : tree) : option tree :=
     match k, t with
     | KS s, TO fs => Some (TO (assoc_set s x fs))
+    | KS s, TD fs => if dictok then Some (TD (assoc_set s x fs)) else None
     | KI i, TL l => if Nat.ltb i (List.length l) then Some (TL (list_set i x l)) else None
     | _, _ => None
     end.
@@ -226,12 +234,13 @@ Section Generic.
   Fixpoint wf (t : tree) : bool :=
     match t with
     | TO fs => nodup_strings (map fst fs) && forallb (fun kc => wf (snd kc)) fs
+    | TD fs => dictok && nodup_strings (map fst fs) && forallb (fun kc => wf (snd kc)) fs
     | TL l => forallb wf l
     | _ => true
     end.
 End Generic.
 
-Arguments TF {V}. Arguments TA {V}. Arguments TI {V}. Arguments TX {V}. Arguments TO {V}. Arguments TL {V}. Arguments TT {V}.
+Arguments TF {V}. Arguments TA {V}. Arguments TI {V}. Arguments TX {V}. Arguments TO {V}. Arguments TD {V}. Arguments TL {V}. Arguments TT {V}.
 Arguments OSame {V}. Arguments ONew {V}. Arguments OErr {V}.
 Arguments fpaths {V}. Arguments get {V}. Arguments set {V}. Arguments put {V}. Arguments child {V}.
 Arguments num_of {V}. Arguments abscissa {V}. Arguments wf {V}. Arguments numbered {V}.
@@ -294,7 +303,7 @@ Fixpoint tree_eqb (a b : tree float) : bool :=
   | TF x, TF y | TA x, TA y => fbits_eqb x y
   | TI x, TI y => Z.eqb x y
   | TX x, TX y => Z.eqb x y
-  | TO fs, TO gs =>
+  | TO fs, TO gs | TD fs, TD gs =>
       (fix go (fs gs : list (string * tree float)) : bool :=
          match fs, gs with
          | [], [] => true
